@@ -1,11 +1,258 @@
 import Mixin.Model.Nonce
-/-! # C12 — a CoSi nonce never answers two different challenges (first cut) -/
+import Mathlib.Tactic.FieldSimp
+import Mathlib.Tactic.Ring
+import Mathlib.Tactic.LinearCombination
+/-!
+# C12 — a CoSi nonce never answers two different challenges
+
+Theorems about `Mixin.Nonce` (model of crypto/nonce.go).  A run is any finite sequence of
+`respond` steps on one shared state: goroutines and handle copies only decide the order of
+the steps (the challenge of a call is computed from its own arguments before the lock; the
+locked section is one step).  That Go's mutex makes the section atomic is an assumption, tied
+by the `lock` fact in `Mixin.Facts.ExpectedC12` and by the concurrent harness stream.
+-/
 namespace Mixin.C12
 open Mixin.Cosi Mixin.Nonce
 
-/-- once used, any other challenge is refused and the state is unchanged -/
+/-- the `(challenge, response)` pairs of the successful calls of a run -/
+def answers : List (Option Nat × Nat) → List Outcome → List (Nat × Nat)
+  | (some c, _) :: cs, .ok s :: os => (c, s) :: answers cs os
+  | _ :: cs, _ :: os => answers cs os
+  | _, _ => []
+
+/-! ## single steps -/
+
+/-- a used nonce never changes again -/
+theorem respond_used_state (st : State) (x : Option Nat) (y : Nat) (hu : st.used = true) :
+    (respond st x y).1 = st := by
+  cases x with
+  | none => simp [respond]
+  | some c =>
+    by_cases hc : st.challenge = c <;> simp [respond, hu, hc]
+
+/-- **nonce_other_refused**: once used, any other challenge is refused with the reuse error and
+    the state is left exactly as it was. -/
 theorem nonce_other_refused (st : State) (c y : Nat) (hu : st.used = true) (hc : st.challenge ≠ c) :
     respond st (some c) y = (st, Outcome.reuse) := by
   simp [respond, hu, hc]
+
+/-- **nonce_repeat_same** (step form): the bound challenge is answered again with the cached
+    response, whatever private key the caller passes, and the state is unchanged. -/
+theorem nonce_repeat_step (st : State) (y : Nat) (hu : st.used = true) :
+    respond st (some st.challenge) y = (st, Outcome.ok st.response) := by
+  simp [respond, hu]
+
+/-- a successful step binds the nonce to its challenge and caches the response -/
+theorem respond_ok (st st' : State) (x : Option Nat) (y s : Nat)
+    (h : respond st x y = (st', Outcome.ok s)) :
+    ∃ c, x = some c ∧ st'.used = true ∧ st'.challenge = c ∧ st'.response = s := by
+  cases x with
+  | none => simp [respond] at h
+  | some c =>
+    refine ⟨c, rfl, ?_⟩
+    by_cases hu : st.used = true
+    · by_cases hc : st.challenge = c
+      · simp [respond, hu, hc] at h
+        obtain ⟨h1, h2⟩ := h
+        subst h1
+        exact ⟨hu, hc, h2⟩
+      · simp [respond, hu, hc] at h
+    · have hu' : st.used = false := by simpa using hu
+      cases hr : st.random with
+      | none => simp [respond, hu', hr] at h
+      | some z =>
+        simp [respond, hu', hr, response] at h
+        obtain ⟨h1, h2⟩ := h
+        subst h1
+        exact ⟨rfl, rfl, h2⟩
+
+/-- an unsuccessful step leaves the state alone -/
+theorem respond_not_ok (st : State) (x : Option Nat) (y : Nat)
+    (h : ∀ s, (respond st x y).2 ≠ Outcome.ok s) : (respond st x y).1 = st := by
+  cases x with
+  | none => simp [respond]
+  | some c =>
+    by_cases hu : st.used = true
+    · exact respond_used_state st _ y hu
+    · have hu' : st.used = false := by simpa using hu
+      cases hr : st.random with
+      | none => simp [respond, hu', hr]
+      | some z =>
+        exfalso
+        apply h ((c * y + z) % ell)
+        simp [respond, hu', hr, response]
+
+/-- the first answer of a fresh nonce is `c·y + z (mod ℓ)` and wipes the secret nonce -/
+theorem first_answer (z c y : Nat) :
+    respond (fresh z) (some c) y =
+      ({ used := true, challenge := c, response := (c * y + z) % ell, random := none },
+        Outcome.ok ((c * y + z) % ell)) := by
+  simp [respond, fresh, response]
+
+/-! ## runs -/
+
+theorem run_cons (st : State) (x : Option Nat) (y : Nat) (rest : List (Option Nat × Nat)) :
+    run st ((x, y) :: rest) =
+      ((run (respond st x y).1 rest).1, (respond st x y).2 :: (run (respond st x y).1 rest).2) := by
+  simp [run]
+
+/-- on a used nonce every call is answered from the state alone: the run is order independent -/
+theorem run_used (st : State) (hu : st.used = true) (calls : List (Option Nat × Nat)) :
+    (run st calls).1 = st ∧ (run st calls).2 = calls.map (fun p => (respond st p.1 p.2).2) := by
+  induction calls with
+  | nil => simp [run]
+  | cons p rest ih =>
+    obtain ⟨x, y⟩ := p
+    rw [run_cons, respond_used_state st x y hu]
+    exact ⟨ih.1, by simp [ih.2]⟩
+
+/-- all answers of a run on a used nonce are the cached pair -/
+theorem answers_used (st : State) (hu : st.used = true) (calls : List (Option Nat × Nat)) :
+    ∀ p ∈ answers calls (run st calls).2, p = (st.challenge, st.response) := by
+  induction calls with
+  | nil => simp [run, answers]
+  | cons q rest ih =>
+    obtain ⟨x, y⟩ := q
+    rw [run_cons, respond_used_state st x y hu]
+    intro p hp
+    cases x with
+    | none => simpa [answers, respond] using ih p (by simpa [answers, respond] using hp)
+    | some c =>
+      by_cases hc : st.challenge = c
+      · simp [respond, hu, hc, answers] at hp
+        rcases hp with hp | hp
+        · rw [hp, ← hc]
+        · exact ih p hp
+      · simp [respond, hu, hc, answers] at hp
+        exact ih p hp
+
+/-- **the run theorem**: in every run, from every state, all successful calls carry one and the
+    same challenge and received one and the same response. -/
+theorem answers_all_equal (st : State) (calls : List (Option Nat × Nat)) :
+    ∀ p ∈ answers calls (run st calls).2, ∀ q ∈ answers calls (run st calls).2, p = q := by
+  induction calls generalizing st with
+  | nil => simp [run, answers]
+  | cons r rest ih =>
+    obtain ⟨x, y⟩ := r
+    rw [run_cons]
+    cases ho : (respond st x y).2 with
+    | ok s =>
+      have hpair : respond st x y = ((respond st x y).1, Outcome.ok s) := by rw [← ho]
+      obtain ⟨c, hx, hu, hc, hs⟩ := respond_ok st _ x y s hpair
+      subst hx
+      have hall := answers_used (respond st (some c) y).1 hu rest
+      have key : ∀ p ∈ answers ((some c, y) :: rest) (Outcome.ok s :: (run (respond st (some c) y).1 rest).2),
+          p = (c, s) := by
+        intro p hp
+        simp [answers] at hp
+        rcases hp with hp | hp
+        · exact hp
+        · rw [hall p hp, hc, hs]
+      intro p hp q hq
+      rw [key p hp, key q hq]
+    | err =>
+      have hst : (respond st x y).1 = st := respond_not_ok st x y (by intro s; rw [ho]; simp)
+      rw [hst]
+      intro p hp q hq
+      have hp' : p ∈ answers rest (run st rest).2 := by cases x <;> simpa [answers] using hp
+      have hq' : q ∈ answers rest (run st rest).2 := by cases x <;> simpa [answers] using hq
+      exact ih st p hp' q hq'
+    | reuse =>
+      have hst : (respond st x y).1 = st := respond_not_ok st x y (by intro s; rw [ho]; simp)
+      rw [hst]
+      intro p hp q hq
+      have hp' : p ∈ answers rest (run st rest).2 := by cases x <;> simpa [answers] using hp
+      have hq' : q ∈ answers rest (run st rest).2 := by cases x <;> simpa [answers] using hq
+      exact ih st p hp' q hq'
+
+/-- **nonce_single_challenge**: over the whole lifetime of a nonce (any number of calls, in any
+    order, through any handle copies) all answered challenges are equal. -/
+theorem nonce_single_challenge (z : Nat) (calls : List (Option Nat × Nat)) :
+    ∀ p ∈ answers calls (run (fresh z) calls).2, ∀ q ∈ answers calls (run (fresh z) calls).2,
+      p.1 = q.1 := by
+  intro p hp q hq
+  rw [answers_all_equal (fresh z) calls p hp q hq]
+
+/-- **nonce_repeat_same**: … and all answers are the identical response. -/
+theorem nonce_repeat_same (z : Nat) (calls : List (Option Nat × Nat)) :
+    ∀ p ∈ answers calls (run (fresh z) calls).2, ∀ q ∈ answers calls (run (fresh z) calls).2,
+      p.2 = q.2 := by
+  intro p hp q hq
+  rw [answers_all_equal (fresh z) calls p hp q hq]
+
+/-- **no_key_extraction**: no run offers two answers with different challenges, so the
+    equation `s₁ − s₂ = (c₁ − c₂)·a` is never available to anybody. -/
+theorem no_key_extraction (z : Nat) (calls : List (Option Nat × Nat)) :
+    ¬ ∃ p ∈ answers calls (run (fresh z) calls).2, ∃ q ∈ answers calls (run (fresh z) calls).2,
+      p.1 ≠ q.1 := by
+  rintro ⟨p, hp, q, hq, hne⟩
+  exact hne (nonce_single_challenge z calls p hp q hq)
+
+/-- after a run in which some call succeeded, every later call with another challenge is refused
+    and the state stays what it was -/
+theorem refused_after_answer (z : Nat) (calls : List (Option Nat × Nat)) (c s : Nat)
+    (h : (c, s) ∈ answers calls (run (fresh z) calls).2) (c' y : Nat) (hne : c' ≠ c) :
+    respond (run (fresh z) calls).1 (some c') y = ((run (fresh z) calls).1, Outcome.reuse) ∧
+    respond (run (fresh z) calls).1 (some c) y = ((run (fresh z) calls).1, Outcome.ok s) := by
+  -- the final state is used and bound to (c, s)
+  have gen : ∀ (st : State) (calls : List (Option Nat × Nat)),
+      (c, s) ∈ answers calls (run st calls).2 →
+      (run st calls).1.used = true ∧ (run st calls).1.challenge = c ∧ (run st calls).1.response = s := by
+    intro st calls
+    induction calls generalizing st with
+    | nil => simp [run, answers]
+    | cons r rest ih =>
+      obtain ⟨x, y⟩ := r
+      rw [run_cons]
+      intro hm
+      cases ho : (respond st x y).2 with
+      | ok s0 =>
+        have hpair : respond st x y = ((respond st x y).1, Outcome.ok s0) := by rw [← ho]
+        obtain ⟨c0, hx, hu, hc, hs⟩ := respond_ok st _ x y s0 hpair
+        have hfix := (run_used _ hu rest).1
+        have hall := answers_used (respond st x y).1 hu rest
+        rw [ho] at hm
+        subst hx
+        simp only [answers, List.mem_cons] at hm
+        simp only [hfix]
+        rcases hm with hm | hm
+        · cases hm
+          exact ⟨hu, hc, hs⟩
+        · have := hall _ hm
+          cases this
+          exact ⟨hu, rfl, rfl⟩
+      | err =>
+        have hst : (respond st x y).1 = st := respond_not_ok st x y (by intro s; rw [ho]; simp)
+        rw [ho] at hm
+        rw [hst] at hm ⊢
+        exact ih st (by cases x <;> simpa [answers] using hm)
+      | reuse =>
+        have hst : (respond st x y).1 = st := respond_not_ok st x y (by intro s; rw [ho]; simp)
+        rw [ho] at hm
+        rw [hst] at hm ⊢
+        exact ih st (by cases x <;> simpa [answers] using hm)
+  obtain ⟨hu, hc, hs⟩ := gen (fresh z) calls h
+  constructor
+  · exact nonce_other_refused _ c' y hu (by rw [hc]; exact fun e => hne e.symm)
+  · have := nonce_repeat_step (run (fresh z) calls).1 y hu
+    rw [hc, hs] at this
+    exact this
+
+/-- why two answers would be fatal (converse, in any field, e.g. `ZMod ℓ`): from
+    `sᵢ = cᵢ·a + z` for two different challenges the private scalar is `(s₁−s₂)/(c₁−c₂)`. -/
+theorem two_answers_leak {F : Type} [Field F] (a z c₁ c₂ s₁ s₂ : F)
+    (h₁ : s₁ = c₁ * a + z) (h₂ : s₂ = c₂ * a + z) (hne : c₁ ≠ c₂) :
+    a = (s₁ - s₂) / (c₁ - c₂) := by
+  have hd : c₁ - c₂ ≠ 0 := sub_ne_zero.mpr hne
+  field_simp
+  rw [h₁, h₂]; ring
+
+/-! ## non-vacuity -/
+
+example : (run (fresh 7) [(some 3, 5), (some 4, 5), (none, 5), (some 3, 9)]).2 =
+    [Outcome.ok 22, Outcome.reuse, Outcome.err, Outcome.ok 22] := by decide
+
+example : answers [(some 3, 5), (some 4, 5), (none, 5), (some 3, 9)]
+    (run (fresh 7) [(some 3, 5), (some 4, 5), (none, 5), (some 3, 9)]).2 = [(3, 22), (3, 22)] := by decide
 
 end Mixin.C12
